@@ -251,3 +251,17 @@ func RichOrphanCfg(id string, extra int, registered bool, feat uint32, oracles u
 	c.Prologue = append(c.Prologue, wx.Op{K: OpRemoveEntity, A: 1}, wx.Op{K: OpRemoveEntity, A: 2}, wx.Op{K: OpRemoveEntity, A: 0})
 	return c
 }
+
+// RichThreeTargetsCfg starts from three targets T1..T3, a child of T1 and a child of T2 in node {R} (two source tables that a
+// batch re-target merges into one destination) and a plain entity {A}: batch operations over several source tables are
+// one operation away.
+func RichThreeTargetsCfg(id string, extra int, feat uint32, oracles uint32) *Cfg {
+	c := RelCfg(id, 0, 6+extra, 0, 8, feat|FBuilder, oracles)
+	c.Prologue = []wx.Op{
+		{K: OpNewEntity, A: 0}, {K: OpNewEntity, A: 0}, {K: OpNewEntity, A: 0},
+		{K: OpBuilderNew, A: 1, B: 1, C: 0, D: 0}, {K: OpBuilderNew, A: 1, B: 1, C: 1, D: 0},
+		{K: OpBuilderNew, A: 1, B: 1, C: 1, D: 0},
+	}
+	c.BatchRefs = []int{0, 4, 5}
+	return c
+}
